@@ -24,8 +24,14 @@ ASSUMPTIONS = [
 ]
 TOL_VAL = {"iminuit": 0.03, "scipy": 0.05}
 PROBLEMS = [("xy", "linoff"), ("xy", "quadoff"), ("xy", "basis3"), ("indexed", "idx3"), ("xy", "lin@1e-5"), ("xy", "linoff#nodet"), ("indexed", "idx3#nodet")]  # @: y in units x1e-5; #nodet: cost OBJECT without determinant term
+# the other identifiers of the chi2 cost function with the full covariance matrix (chi2 solves with a QR decomposition of the
+# covariance matrix, the *_fast variants - fast_math=True - with its Cholesky factor): problem "<model>#<identifier>"
+COST_IDS = ["chi2_fast", "chi2_covariance", "chi2_covariance_fast"]
+COST_PROBLEMS = [(ft, "%s#%s" % (m, c)) for c in COST_IDS for ft, m in (("xy", "linoff"), ("indexed", "idx3"))]
+PROBLEMS = PROBLEMS + COST_PROBLEMS
 MIX_KINDS = ["y-abs", "y-abs-rho", "y-cov", "y-rel"]
 CONS = [(), ("simple",), ("matrix-cov",), ("simple-rel", "matrix-cor")]
+CONS_COST = [(), ("simple-rel", "matrix-cor")]  # constraint sets / starting points of the cost-identifier problems
 
 
 def mixes():
@@ -136,6 +142,158 @@ def run_multi_job(spec):
     return res.as_dict()
 
 
+# ---- the convenience wrappers as a construction route of linear problems: xy_fit / indexed_fit called with the uncertainty
+# keywords and every combination of up to two of the control keywords p0, dp0, limits, fixed (with / without a value),
+# constraints (plus two larger combinations); the closed form uses what the keywords ask for: a parameter fixed "at the given
+# value" is a deleted column at that value whatever p0 says, fixed without a value is fixed at its p0 entry (or the default),
+# constraints are measurement rows, limits that contain the solution and step sizes (dp0) change nothing
+WRAPPER_PROBLEMS = [("xy_fit", "linoff"), ("xy_fit", "quadoff"), ("indexed_fit", "idx3")]
+WRAPPER_ERRSETS = ["vector", "matrix", "vector+cor", "vector+rel-to-data", "scalar+cor-list"]
+WRAPPER_ITEMS = ("p0", "dp0", "lim", "fixv", "fixn", "con1", "con2")
+
+
+def wrapper_combos():
+    out = [()] + [(i,) for i in WRAPPER_ITEMS]
+    out += [(i, j) for a, i in enumerate(WRAPPER_ITEMS) for j in WRAPPER_ITEMS[a + 1 :] if (i, j) not in (("fixv", "fixn"), ("con1", "con2"))]
+    out += [("p0", "dp0", "lim", "fixv", "con2"), ("p0", "lim", "fixn", "con1"), ("p0", "fix2", "con1"), ("fix2",)]
+    return out
+
+
+class _WrapperWorld(object):
+    """What reference() / check_fit() read from a world, for a fit that was built by a wrapper function."""
+
+    cost_id = "chi2"
+
+    def __init__(self, ftype, fn, fit, x, d, V, cons, fixed):
+        self.ftype, self.fn, self.fit, self._x, self._d, self._V = ftype, fn, fit, x, d, V
+        self.par_names = list(fit.parameter_names)
+        self.con_specs = dict(enumerate(cons))
+        self.cons = list(self.con_specs)
+        self.fixed = dict(fixed)
+
+    def ref_data(self):
+        return self._x, self._d
+
+    def ref_covs(self):
+        return {"total": self._V}
+
+    def ref_ndf(self):
+        return len(self._d) + len(self.cons) - len(self.par_names) + len(self.fixed)
+
+
+def wrapper_case(wname, model, errset, combo, v):
+    """-> (keyword arguments of the wrapper call, function building the reference world from the returned fit)"""
+    from kmc.valuations import V
+
+    val = V(v, 8)
+    n = 8
+    y = val.y
+    ones = np.ones((n, n))
+    pre = "y_" if wname == "xy_fit" else ""
+    ekw, Vt = {
+        "vector": ({pre + "error": val.ey}, np.diag(val.ey**2)),
+        "matrix": ({pre + "error": val.My}, np.array(val.My, dtype=float)),
+        "vector+cor": ({pre + "error": val.ey, pre + "error_cor": val.ys}, np.diag(val.ey**2) + val.ys**2 * ones),
+        "vector+rel-to-data": ({pre + "error": val.ey, pre + "error_rel": val.ry, "errors_rel_to_model": False}, np.diag(val.ey**2) + np.diag((val.ry * y) ** 2)),
+        "scalar+cor-list": ({pre + "error": val.ys, pre + "error_cor": [0.11, 0.07]}, val.ys**2 * np.eye(n) + (0.11**2 + 0.07**2) * ones),
+    }[errset]
+    if wname == "xy_fit":
+        fn = ref.MODELS[model]
+        pos = (fn, val.x, y)
+    else:
+        fn = ref.make_indexed_model(n, 3)
+        pos = (fn, y)
+    import inspect
+
+    names = [q for q in inspect.signature(fn).parameters if q != "x"]
+    dflt = [float(inspect.signature(fn).parameters[q].default) for q in names]
+    p0 = [round(t * 1.15 + 0.1, 6) for t in dflt]
+    items = {
+        "p0": dict(p0=p0),
+        "dp0": dict(dp0=[0.05 + 0.02 * i for i in range(len(names))]),
+        "lim": dict(limits=[(names[0], -50.0, 50.0), (names[1], None, 60.0)]),
+        "fixv": dict(fixed=[(names[1], round(dflt[1] * 1.2 + 0.13, 6))]),
+        "fixn": dict(fixed=[(names[1],)]),
+        "fix2": dict(fixed=[(names[0], round(dflt[0] * 0.9 - 0.07, 6)), (names[-1],)]),
+        "con1": dict(constraints=[(names[0], round(dflt[0] * 1.3 + 0.2, 6), 0.35)]),
+        "con2": dict(constraints=[(names[1], round(dflt[1] * 0.7 + 0.35, 6), 0.2, True), (names[0], round(dflt[0] * 1.2 + 0.1, 6), 0.3)]),
+    }
+    if "fix2" in combo and len(names) < 3:
+        return None
+    m = dict(p0=None, dp0=None, limits=[], fixed=[], constraints=[])
+    for it in combo:
+        for k, x_ in items[it].items():
+            m[k] = (m[k] + list(x_)) if isinstance(m[k], list) else x_
+    kw = dict(ekw)
+    for k in ("p0", "dp0"):
+        if m[k] is not None:
+            kw[k] = list(m[k])
+    for k in ("limits", "fixed", "constraints"):
+        if m[k]:
+            kw[k] = tuple(m[k][0]) if len(m[k]) == 1 else [tuple(e) for e in m[k]]  # one bare entry or a list of entries
+    start = p0 if m["p0"] is not None else dflt
+    fixed = dict((e[0], float(e[1]) if len(e) > 1 else float(start[names.index(e[0])])) for e in m["fixed"])
+    cons = [dict(form="simple", name=c[0], value=c[1], uncertainty=c[2], relative=bool(c[3]) if len(c) > 3 else False) for c in m["constraints"]]
+
+    def world(fit):
+        return _WrapperWorld("xy" if wname == "xy_fit" else "indexed", fn, fit, val.x if wname == "xy_fit" else None, y, Vt, cons, fixed)
+
+    return pos, kw, world
+
+
+def execute_wrapper(wname, model, errset, combo, v):
+    import kafe2
+
+    case = wrapper_case(wname, model, errset, tuple(combo), v)
+    if case is None:
+        return None
+    pos, kw, world = case
+    with warnings.catch_warnings():
+        warnings.simplefilter("ignore")
+        r = getattr(kafe2, wname)(*pos, save=False, report=False, profile=True, **kw)
+        w = world(r["fit"])
+        g = reference(w)
+        bad = []
+        sig = np.sqrt(np.diag(g["cov"]))
+        for i, q in enumerate(w.par_names):  # the returned result dictionary
+            got = float(r["parameter_values"][q])
+            if (q in w.fixed and got != w.fixed[q]) or abs(got - g["values"][i]) > TOL_VAL["iminuit"] * sig[i]:
+                bad.append(("result[parameter_values]:" + q, float(g["values"][i]), got, "fixed-moved" if q in w.fixed else "wrong-value"))
+        if r["goodness_of_fit"] is None or abs(r["goodness_of_fit"] - g["chi2"]) > 1e-3 + 1e-6 * abs(g["chi2"]):
+            bad.append(("result[goodness_of_fit]", g["chi2"], r["goodness_of_fit"], "wrong-value"))
+        bad += check_fit(w, "iminuit", True)
+    return bad
+
+
+def run_wrapper_job(spec):
+    _, wi, errset, v, tier = spec
+    wname, model = WRAPPER_PROBLEMS[wi]
+    res = JobResult()
+    for combo in wrapper_combos():
+        hist = [dict(wrapper=wi, errset=errset, combo=list(combo), v=v)]
+        sg = "wrapper/%s/%s|%s|%s" % (wname, model, errset, "+".join(combo) or "plain")
+        try:
+            bad = execute_wrapper(wname, model, errset, combo, v)
+        except Exception as e:  # noqa: BLE001
+            bad = [("op", "no exception", "%s: %s" % (type(e).__name__, str(e)[:150]), "exception:" + type(e).__name__)]
+        if bad is None:
+            continue
+        res.executions += 1
+        res.transitions += 2 + len(combo)
+        res.evaluations += 9
+        key = ("wrapper", wi, errset, combo, v)
+        res.state(key)
+        if combo or errset != "vector":
+            res.nontriv(key)
+        res.observe((key, len(bad)))
+        res.outcomes[("wrapper:" + wname, model, errset, "ok" if not bad else "MISMATCH")] += 1
+        res.facts["problem:wrapper"] += 1
+        for o, e, a, md in bad:
+            res.violation(sg, hist, o, e, a, md)
+    res.sample(dict(kind="wrapper", wrapper=wname, model=model, errset=errset, combos=["+".join(c) for c in wrapper_combos()][:6]))
+    return res.as_dict()
+
+
 def jobs(tier, seed):
     v = seed % 3
     specs = []
@@ -144,11 +302,17 @@ def jobs(tier, seed):
             for backend in ("iminuit", "scipy"):
                 if "@" in prob[1] and backend == "scipy":
                     continue  # the scipy backend is not scale invariant (open finding KF-C15-02); the small-unit problem is run with iminuit
+                if tuple(prob) in COST_PROBLEMS:
+                    specs.append((prob, backend, "ALL", vv, tier))  # all source mixes in one job
+                    continue
                 for mi, mix in enumerate(mixes()):
                     specs.append((prob, backend, mix, vv, tier))
         for ci in range(len(MULTI_CASES)):
             for backend in ("iminuit", "scipy"):
                 specs.append(("multi", ci, backend, vv, tier))
+        for wi in range(len(WRAPPER_PROBLEMS)):
+            for errset in WRAPPER_ERRSETS:
+                specs.append(("wrapper", wi, errset, vv, tier))
     return specs
 
 
@@ -238,7 +402,7 @@ def check_fit(w, backend, with_asym):
 def _world(ftype, model, v, backend):
     if "#" in model:
         m, flag = model.split("#")
-        return FitWorld(ftype, "chi2:nodet", model=m, v=v, n=8, minimizer=backend)
+        return FitWorld(ftype, "chi2:nodet" if flag == "nodet" else flag, model=m, v=v, n=8, minimizer=backend)
     if "@" in model:
         m, sc = model.split("@")
         return FitWorld(ftype, "chi2", model=m, v=v, n=8, minimizer=backend, yscale=float(sc))
@@ -258,16 +422,29 @@ def execute(cfg, ops, with_asym):
 def run_job(spec):
     if spec[0] == "multi":
         return run_multi_job(spec)
+    if spec[0] == "wrapper":
+        return run_wrapper_job(spec)
     prob, backend, mix, v, tier = spec
     res = JobResult()
+    for mx in (mixes() if mix == "ALL" else [mix]):
+        _run_mix(res, prob, backend, tuple(mx), v)
+    res.facts["backend:" + backend] += 1
+    res.facts["problem:" + prob[1]] += 1
+    names = _world(prob[0], prob[1], v, backend).par_names
+    res.sample(dict(problem=list(prob), backend=backend, mix=list(mixes()[0] if mix == "ALL" else mix), valuation=v, example_ops=[list(o) for o in build_ops(mixes()[0] if mix == "ALL" else mix, CONS[1], "P1", (names[0],))]))
+    return res.as_dict()
+
+
+def _run_mix(res, prob, backend, mix, v):
     cfg = (prob, backend, v)
     w0 = _world(prob[0], prob[1], v, backend)
     names = w0.par_names
-    for cons in CONS:
+    by_cost_id = tuple(prob) in COST_PROBLEMS
+    for cons in (CONS_COST if by_cost_id else CONS):
         if any(n not in names for c in cons for n in ([w0.con_specs[c].get("name")] if w0.con_specs[c]["form"] == "simple" else w0.con_specs[c]["names"])):
             continue
         for fixed in fixed_subsets(names):
-            for start in ("P0", "P1"):
+            for start in (("P1",) if by_cost_id else ("P0", "P1")):
                 ops = build_ops(mix, cons, start, fixed)
                 with_asym = (backend == "iminuit" and "@" not in prob[1]) or (prob[1] == "linoff" and len(mix) == 1 and not fixed and start == "P0")
                 hist = [dict(cfg=[list(prob), backend, v], asym=with_asym)] + [list(o) for o in ops]
@@ -288,10 +465,6 @@ def run_job(spec):
                 res.outcomes[(prob[1], backend, "fixed%d" % len(fixed), "cons%d" % len(cons), "ok" if not bad else "MISMATCH")] += 1
                 for obs, exp, act, mode in bad:
                     res.violation(_sig(prob, backend, ops), hist, obs, exp, act, mode)
-    res.facts["backend:" + backend] += 1
-    res.facts["problem:" + prob[1]] += 1
-    res.sample(dict(problem=list(prob), backend=backend, mix=list(mix), valuation=v, example_ops=[list(o) for o in build_ops(mix, CONS[1], "P1", (names[0],))]))
-    return res.as_dict()
 
 
 def _sig(prob, backend, ops):
@@ -300,6 +473,13 @@ def _sig(prob, backend, ops):
 
 def replay(history):
     head = history[0]
+    if "wrapper" in head:
+        wname, model = WRAPPER_PROBLEMS[head["wrapper"]]
+        try:
+            bad = execute_wrapper(wname, model, head["errset"], head["combo"], head["v"]) or []
+        except Exception as e:  # noqa: BLE001
+            bad = [("op", "no exception", type(e).__name__, "exception:" + type(e).__name__)]
+        return [dict(observable=o, expected=e, actual=a, mode=m) for o, e, a, m in bad]
     if "multi" in head:
         names, extras = MULTI_CASES[head["multi"]]
         try:
@@ -322,3 +502,4 @@ def triage_key(v):
 def vacuity_guards(tot, tier):
     yield "both backends fitted", tot.facts.get("backend:iminuit", 0) > 0 and tot.facts.get("backend:scipy", 0) > 0
     yield "all four problems fitted", all(tot.facts.get("problem:" + p[1], 0) > 0 for p in PROBLEMS)
+    yield "wrapper route fitted", tot.facts.get("problem:wrapper", 0) > 0
